@@ -134,7 +134,7 @@ class C17(Engine):
                    "display is never toggled off before run on riscv/mips/ebpf (their run loops have no seam call to schedule a SIGINT at)",
                    "requested ranges are bounded to 64 Ki units except explicit wrap probes at the top of the address space"]
 
-    NSWEEP = 68 * 3      # every CPU's disassembler over seeded byte soup, three images each
+    NSWEEP = 68 * 4      # every CPU's disassembler over seeded byte soup, four images each (one per kind)
 
     def directed(self):
         return len(FORMATS) * 4 + self.NSWEEP
@@ -145,25 +145,55 @@ class C17(Engine):
         cpus = [c["name"] for c in progs.cpus()]
         cpu = cpus[k % len(cpus)]
         n = rng.pick([64, 300, 2000])
-        kind = rng.below(3)
-        if kind == 0:
+        kind = (k // len(cpus)) % 4
+        bpa = max(progs.cpu_info(cpu)["bpa"], 1)
+        base = rng.pick([0, 0x100, 0x8000, 0xff00, 0xfffffe00])
+        sweep = None
+        if kind == 3:
+            # opcode table sweep: every first byte at every alignment, each followed by three small or extreme integers
+            # of every width and byte order (lengths, counts, table bounds, displacements as a decoder reads them), each
+            # record listed by its own disasm command so that one swallowed range does not hide the rest
+            vals = [-6, -5, -4, -2, -1, 0, 0, 1, 2, 3, 5, 8, 0x7f, -0x80, 0x7fff, -0x8000, 0x7fffffff, -0x80000000]
+            out = bytearray()
+            base = rng.pick([0, 0x100, 0x8000])
+            sweep = []
+            # (neighbouring records hold different opcodes: a decoder that steps backwards meets ordinary code and comes round again)
+            for width, order, lead, align in [(w, o, l, al) for w, o in ((1, "big"), (2, "big"), (2, "little"), (4, "big"), (4, "little"))
+                                              for l in range(0, 4, min(bpa, 4)) for al in (False, True)]:
+                for op in range(256):
+                    a, b, c = rng.pick(vals), rng.pick(vals), rng.pick(vals)
+                    shape = rng.below(5)
+                    if shape <= 1:
+                        b, c = max(b, c), min(b, c)      # bounds the wrong way round
+                    elif shape == 2:
+                        a, b = -abs(a) - 1, -abs(b) - 1  # negative count / length
+                    at = base + len(out) + lead
+                    sweep.append("disasm 0x%x-0x%x" % (at // bpa, at // bpa + max(12 // bpa, 1)))
+                    rec = bytes(lead) + bytes([op])
+                    if align:
+                        rec += bytes(-(at + 1) % 4)      # operands on the next 4-byte boundary (switch tables)
+                    for v in (a, b, c):
+                        rec += (v & ((1 << (8 * width)) - 1)).to_bytes(width, order)
+                    out += rec + bytes(20 - len(rec))
+            data = bytes(out)
+        elif kind == 0:
             data = rng.bytes(n)
         elif kind == 1:
             data = bytes(rng.pick([0x00, 0xff, 0xaa, 0xab, 0xc4, 0x0e, 0x80, 0x7f, 0xcb, 0xdd, 0xed, 0xfd, 0x10, 0x20]) for _ in range(n))
         else:
             data = bytes((rng.below(256) if rng.chance(1, 2) else 0xff) for _ in range(n))
-        base = rng.pick([0, 0x100, 0x8000, 0xff00, 0xfffffe00])
-        src = ".%s\n.org 0x%x\n" % (cpu, base // max(progs.cpu_info(cpu)["bpa"], 1))
+        src = ".%s\n.org 0x%x\n" % (cpu, base // bpa)
         for i in range(0, len(data), 16):
             src += ".db " + ", ".join("0x%02x" % b for b in data[i:i + 16]) + "\n"
-        interactive = rng.chance(1, 3)
+        interactive = rng.chance(1, 3) or sweep is not None
         return {"fmt": "hex", "ext": "hex", "cpu": cpu, "src": src, "ti_txt": None, "damage_seed": rng.u64(), "ndamage": 0,
                 "env": {"clock0": 1291231234, "heap_fill": rng.below(4), "heap_seed": rng.u64(), "stack_fill": rng.below(4),
                         "stack_seed": rng.u64(), "chunk_seed": 0},
                 "faults": [], "serial": None, "name": "obj.hex",
                 "argv": ["-" + cpu, "obj.hex"] + ([] if interactive else ["-disasm"]),
                 "mode": "interactive" if interactive else "-disasm",
-                "console": ["disasm", "disasm 0x%x-0x%x" % (base // max(progs.cpu_info(cpu)["bpa"], 1), base // max(progs.cpu_info(cpu)["bpa"], 1) + 40), "quit"] if interactive else [],
+                "console": (sweep + ["quit"] if sweep is not None else
+                            ["disasm", "disasm 0x%x-0x%x" % (base // bpa, base // bpa + 40), "quit"]) if interactive else [],
                 "sigs": []}
 
     def plan(self, rng, index):
@@ -444,6 +474,11 @@ class C17(Engine):
             yield c
         # planned SIGINTs are never dropped: a run loop that nobody interrupts is not a hang
         n = len(plan["console"])
+        if n > 40 and not plan["sigs"]:
+            for keep in (plan["console"][n // 2:], plan["console"][:n // 2] + plan["console"][-1:]):
+                c = copy.deepcopy(plan)
+                c["console"] = keep
+                yield c
         for i in range(n - 1):
             c = copy.deepcopy(plan)
             del c["console"][i]
